@@ -39,6 +39,7 @@ theorem slots_dropFn (r : Nat) (R : Rep) (f : Fun) (s : State) : (dropFn r R f s
   | mem fid t => exact slots_trkRemove _ _ _
   | sref fid v => exact slots_unsetParentIf _ _ _
   | own fid v t => cases t <;> first | rfl | exact slots_trkRemove _ _ _
+  | nest fid v d => exact slots_unsetParentIf _ _ _
 
 theorem destroyRep_slots_noOwn (k r : Nat) (s : State) (R : Rep) (hr : s.reps r = some R)
     (hf : ∀ f, R.fn = some f → f.owns = none) : (destroyRep k r s).slots = s.slots := by
@@ -53,7 +54,7 @@ theorem destroyRep_slots_noOwn (k r : Nat) (s : State) (R : Rep) (hr : s.reps r 
 /-- what `dropFn r` does to another representation: at most its parent link to `r` is cleared -/
 theorem reps_dropFn_other (r : Nat) (R : Rep) (f : Fun) (s : State) (x : Nat) (hx : x ≠ r) :
     (dropFn r R f s).reps x = s.reps x ∨
-      (∃ v X, f = .sref f.fid v ∧ repOf s v = some x ∧ s.reps x = some X ∧
+      (∃ v X, f.ref = some v ∧ repOf s v = some x ∧ s.reps x = some X ∧
         (dropFn r R f s).reps x = some (clearPar r X)) := by
   unfold dropFn
   rw [reps_modRep, if_neg hx]
@@ -68,6 +69,13 @@ theorem reps_dropFn_other (r : Nat) (R : Rep) (f : Fun) (s : State) (x : Nat) (h
       | some X => right; exact ⟨v, X, rfl, hv, rfl, by simp [hv, hX]⟩
     · left; simp [hv]
   | own fid v t => cases t <;> (left; simp [unbindFun, reps_trkRemove, reps_setRep, hx])
+  | nest fid v d =>
+    simp only [unbindFun, reps_unsetParentIf, repOf_setRep, reps_setRep, hx, if_false]
+    by_cases hv : repOf s v = some x
+    · cases hX : s.reps x with
+      | none => left; simp [hv, hX]
+      | some X => right; exact ⟨v, X, rfl, hv, rfl, by simp [hv, hX]⟩
+    · left; simp [hv]
 
 /-- a representation that is not stored in any variable is not touched by `destroyRep` -/
 theorem destroyRep_orphan : ∀ (k r : Nat) (s : State) (x : Nat), (∀ w, repOf s w ≠ some x) → x ≠ r →
@@ -110,14 +118,14 @@ theorem destroyRep_orphan : ∀ (k r : Nat) (s : State) (x : Nat), (∀ w, repOf
                 rw [reps_killVar, if_neg hne, ih r' _ x ho2 hne]; exact h2
 
 /-- a variable owned by a functor that is stored in an unstored representation is not destroyed by `destroyRep` -/
-theorem destroyRep_ownedByOrphan : ∀ (k r : Nat) (s : State) (n v : Nat) (N : Rep) (fid : Nat) (t : Option Nat),
-    Inv s → (∀ w, repOf s w ≠ some n) → n ≠ r → s.reps n = some N → N.fn = some (.own fid v t) →
+theorem destroyRep_ownedByOrphan : ∀ (k r : Nat) (s : State) (n v : Nat) (N : Rep) (g : Fun),
+    Inv s → (∀ w, repOf s w ≠ some n) → n ≠ r → s.reps n = some N → N.fn = some g → g.owns = some v →
     (destroyRep k r s).slots v = s.slots v := by
   intro k
   induction k with
-  | zero => intro r s n v N fid t _ _ _ _ _; rfl
+  | zero => intro r s n v N g _ _ _ _ _ _; rfl
   | succ k ih =>
-    intro r s n v N fid t hI ho hx hN hNf
+    intro r s n v N g hI ho hx hN hNf hgo
     rw [destroyRep_succ]
     cases hr : s.reps r with
     | none => rfl
@@ -145,7 +153,7 @@ theorem destroyRep_ownedByOrphan : ∀ (k r : Nat) (s : State) (n v : Nat) (N : 
             have hhv : h ≠ v := by
               intro he; subst he
               apply hob
-              exact (ownedBy_iff hI2.repBound h).mpr ⟨n, N, fid, t, by rw [h2]; exact hN, hNf⟩
+              exact (ownedBy_iff hI2.repBound h).mpr ⟨n, N, g, by rw [h2]; exact hN, hNf, hgo⟩
             split
             · simp only [hsl]
             · rename_i V hV
@@ -156,7 +164,7 @@ theorem destroyRep_ownedByOrphan : ∀ (k r : Nat) (s : State) (n v : Nat) (N : 
                   intro he; subst he
                   exact ho2 h (by simp [repOf, hV, hr'])
                 rw [slots_killVar, if_neg (Ne.symm hhv),
-                  ih r' _ n v N fid t hI2 ho2 hne (by rw [h2]; exact hN) hNf, hsl]
+                  ih r' _ n v N g hI2 ho2 hne (by rw [h2]; exact hN) hNf hgo, hsl]
 
 /-! ### `delS` -/
 
@@ -223,23 +231,24 @@ theorem wf_delS {s : State} (hw : WF s) {v : Nat} (hnp : pinnedOther s v = false
     stored in a representation) -/
 structure FunOk (s : State) (f : Fun) : Prop where
   trk : ∀ t, f.trk = some t → ∃ T, s.trks t = some T
-  ref : ∀ v, f.ref = some v → (∃ V, s.slots v = some V) ∧ ¬ Owned s v
-  own : ∀ v, f.owns = some v → (∃ V, s.slots v = some V) ∧ ¬ Pinned s v
+  ref : ∀ v, f.ref = some v → v < anonBase ∧ (∃ V, s.slots v = some V) ∧ ¬ Owned s v
+  own : ∀ v, f.owns = some v → v < anonBase ∧ (∃ V, s.slots v = some V) ∧ ¬ Pinned s v
+  flat : ∀ fid v d, f ≠ .nest fid v d
 
 /-- `new typed_slot_rep(functor)` / `clone()`: allocate `s.nextRep`, bind -/
 def allocBind (c : Bool) (f : Fun) (s : State) : State :=
   bindFun s.nextRep f (allocRep ⟨c, none, some f, []⟩ s)
 
-theorem fresh_entries {s : State} (hw : WF s) (t : Nat) (T : Trk) (b : Bool) (ht : s.trks t = some T) :
-    (s.nextRep, b) ∉ T.entries := by
+theorem fresh_entries {s : State} (hI : Inv s) (hidle0 : Idle s) (t : Nat) (T : Trk) (b : Bool)
+    (ht : s.trks t = some T) : (s.nextRep, b) ∉ T.entries := by
   intro hxb
   have hb : b = true := by
     cases b with
     | true => rfl
-    | false => exact absurd hxb ((hw.idle t T ht).2 _)
+    | false => exact absurd hxb ((hidle0 t T ht).2 _)
   subst hb
-  obtain ⟨R, f, hR, -⟩ := hw.inv.trkEnt t T _ ht hxb
-  exact absurd (hw.inv.repBound _ R hR) (Nat.lt_irrefl _)
+  obtain ⟨R, f, hR, -⟩ := hI.trkEnt t T _ ht hxb
+  exact absurd (hI.repBound _ R hR) (Nat.lt_irrefl _)
 
 theorem orphan_next {s : State} (hI : Inv s) (w : Nat) : repOf s w ≠ some s.nextRep := by
   intro h
@@ -275,15 +284,51 @@ theorem bindFun_noRef (r : Nat) (f : Fun) (s : State) (hf : f.ref = none) :
   | mem fid t => rfl
   | sref fid v => simp [Fun.ref] at hf
   | own fid v t => cases t <;> rfl
+  | nest fid v d => simp [Fun.ref] at hf
 
 theorem orphan_modRep {s : State} (q : Nat) (g : Rep → Rep) (r : Nat) :
     Orphan (s.modRep q g) r ↔ Orphan s r := by
   unfold Orphan; simp only [repOf_modRep]
 
-theorem inv_setPar {s : State} (h : Inv s) {n q v fid : Nat} {N : Rep} (hn : s.reps n = some N)
-    (hf : N.fn = some (.sref fid v)) (hq : repOf s v = some q) : Inv (s.modRep q (setPar n)) := by
+theorem modRep_fn_inv {s : State} {q : Nat} {g : Rep → Rep} (hg : ∀ Q, (g Q).fn = Q.fn) {r : Nat} {R : Rep}
+    (hR : (s.modRep q g).reps r = some R) : ∃ W, s.reps r = some W ∧ W.fn = R.fn := by
+  rw [reps_modRep] at hR
+  by_cases hrq : r = q
+  · simp only [hrq, if_true, Option.map_eq_some_iff] at hR
+    obtain ⟨W, hW, rfl⟩ := hR
+    exact ⟨W, by rw [hrq]; exact hW, (hg W).symm⟩
+  · rw [if_neg hrq] at hR; exact ⟨R, hR, rfl⟩
+
+theorem owned_modRep_fn {s : State} {q : Nat} {g : Rep → Rep} (hg : ∀ Q, (g Q).fn = Q.fn) {v : Nat}
+    (h : Owned (s.modRep q g) v) : Owned s v := by
+  obtain ⟨r, R, f, hR, hf, ho⟩ := h
+  obtain ⟨W, hW, hWf⟩ := modRep_fn_inv hg hR
+  exact ⟨r, W, f, hW, by rw [hWf]; exact hf, ho⟩
+
+/-- the `refOk` clause carries over to a state whose representations keep their functors and whose variables
+    stay alive -/
+theorem refOk_transfer {s s' : State} (h : Inv s)
+    (hfn : ∀ r R', s'.reps r = some R' → ∃ R, s.reps r = some R ∧ R.fn = R'.fn)
+    (hsl : ∀ v V, s.slots v = some V → ∃ V', s'.slots v = some V') :
+    ∀ r R fid v, s'.reps r = some R → R.fn = some (.sref fid v) →
+      v < anonBase ∧ (∃ V, s'.slots v = some V) ∧ ¬ Owned s' v := by
+  intro r R' fid v hR' hf
+  obtain ⟨R, hR, hRf⟩ := hfn r R' hR'
+  obtain ⟨h1, ⟨V, hV⟩, h3⟩ := h.refOk r R fid v hR (by rw [hRf]; exact hf)
+  refine ⟨h1, hsl v V hV, ?_⟩
+  rintro ⟨x, X', f, hX', hXf, ho⟩
+  obtain ⟨X, hX, hXfn⟩ := hfn x X' hX'
+  exact h3 ⟨x, X, f, hX, by rw [hXfn]; exact hXf, ho⟩
+
+theorem inv_setPar {s : State} (h : Inv s) {n q v : Nat} {N : Rep} {f : Fun} (hn : s.reps n = some N)
+    (hf : N.fn = some f) (hfr : f.ref = some v) (hq : repOf s v = some q) : Inv (s.modRep q (setPar n)) := by
   refine { repAlive := ?_, repUniq := ?_, connReg := ?cr, cbsConn := ?cc, regUniq := ?_, cbsNodup := ?_,
-           parentOk := ?_, trkReg := ?_, trkEnt := ?_, trkNodup := ?_, refOk := ?_, ownOk := ?_, repBound := ?_ }
+           parentOk := ?_, trkReg := ?_, trkEnt := ?_, trkNodup := ?_, refOk := ?ro, ownOk := ?_, nestOk := ?_, anonBound := ?_, repBound := ?_ }
+  case ro =>
+    intro r R fid v' hR hfn
+    obtain ⟨W, hW, hWf⟩ := modRep_fn_inv (setPar_fn n) hR
+    obtain ⟨h1, h2, h3⟩ := h.refOk r W fid v' hW (by rw [hWf]; exact hfn)
+    exact ⟨h1, by rw [slots_modRep]; exact h2, fun ho => h3 (owned_modRep_fn (setPar_fn n) ho)⟩
   case cr =>
     intro c w hcw
     rw [conns_modRep] at hcw
@@ -309,13 +354,11 @@ theorem inv_setPar {s : State} (h : Inv s) {n q v fid : Nat} {N : Rep} (hn : s.r
     exact ⟨w, by rw [conns_modRep]; exact hw, by rw [repOf_modRep, orphan_modRep]; exact hor⟩
   all_goals inv_clause h with [setPar_fn, setPar_cbs, setPar_parent]
 
-theorem inv_allocBind {s : State} (hw : WF s) (c : Bool) {f : Fun} (hf : FunOk s f) :
+theorem inv_allocBind {s : State} (h : Inv s) (hidle : Idle s) (c : Bool) {f : Fun} (hf : FunOk s f) :
     Inv (allocBind c f s) := by
-  have h := hw.inv
-  have hfresh := fresh_entries hw
-  have hidle := hw.idle
+  have hfresh := fresh_entries h hidle
   have horph := orphan_next h
-  have hf1 := hf.trk; have hf2 := hf.ref; have hf3 := hf.own
+  have hf1 := hf.trk; have hf2 := hf.ref; have hf3 := hf.own; have hf4 := hf.flat
   unfold allocBind Idle Pinned at *
   cases hfr : f.ref with
   | none =>
@@ -325,7 +368,7 @@ theorem inv_allocBind {s : State} (hw : WF s) (c : Bool) {f : Fun} (hf : FunOk s
     | some t =>
       simp only []
       refine { repAlive := ?_, repUniq := ?_, connReg := ?_, cbsConn := ?_, regUniq := ?_, cbsNodup := ?_,
-               parentOk := ?_, trkReg := ?_, trkEnt := ?te, trkNodup := ?_, refOk := ?_, ownOk := ?_, repBound := ?_ }
+               parentOk := ?_, trkReg := ?_, trkEnt := ?te, trkNodup := ?_, refOk := ?_, ownOk := ?_, nestOk := ?_, anonBound := ?_, repBound := ?_ }
       case te =>
         intro t' T r ht hm
         simp only [slotg_simp] at ht ⊢
@@ -348,14 +391,18 @@ theorem inv_allocBind {s : State} (hw : WF s) (c : Bool) {f : Fun} (hf : FunOk s
   | some v =>
     obtain ⟨fid, rfl⟩ : ∃ fid, f = .sref fid v := by
       cases f <;> simp [Fun.ref] at hfr
-      subst hfr; exact ⟨_, rfl⟩
+      · subst hfr; exact ⟨_, rfl⟩
+      · exact absurd rfl (hf4 _ _ _)
     rw [bindFun_sref, setParentIfNone_eq, repOf_allocRep]
-    have h1 : Inv (allocRep ⟨c, none, some (.sref fid v), []⟩ s) := by inv_auto h
+    have h1 : Inv (allocRep ⟨c, none, some (.sref fid v), []⟩ s) := by
+      clear hfresh hidle hf1 hf3 hf4 hfr
+      inv_auto h
     cases hq : repOf s v with
     | none => exact h1
     | some q =>
       simp only []
-      exact inv_setPar h1 (fid := fid) (N := ⟨c, none, some (.sref fid v), []⟩) (by simp [reps_allocRep]) rfl
+      exact inv_setPar h1 (N := ⟨c, none, some (.sref fid v), []⟩) (f := .sref fid v) (v := v)
+        (by simp [reps_allocRep]) rfl rfl
         (by rw [repOf_allocRep]; exact hq)
 
 end Sigc.SlotG
